@@ -37,6 +37,8 @@ use wire::{hex, unhex};
 ///   R <request>  convert a request     -> <convert out>
 ///   T <hex>      prost-decode an OTLP request and convert it -> ok rows=N | err | undecodable | PANIC ..
 ///   F <frames>   Flight DoPut frames (hexheader:hexbody joined by ",") -> ok N | err | PANIC ..
+///   G <chunks>   raw gRPC body chunks through FlightIngestGrpcService::do_put
+///                -> ok <acknowledged rows> buffered=<rows> | err <grpc code> buffered=<rows> | PANIC ..
 fn worker_main() {
     csv_common::quiet_panics();
     unsafe {
@@ -80,6 +82,12 @@ fn worker_main() {
                     },
                 }
             }
+            "G" => {
+                // raw gRPC request body for FlightIngestGrpcService::do_put: chunks (hex) joined by ",";
+                // the chunk "ERR" makes the transport fail at that point
+                let chunks: Vec<Option<Vec<u8>>> = arg.split(',').filter(|x| !x.is_empty()).map(|c| if c == "ERR" { None } else { Some(unhex(c)) }).collect();
+                rt.block_on(grpc_do_put(chunks))
+            }
             "F" => {
                 let frames: Vec<arrow_flight::FlightData> = arg
                     .split(',')
@@ -108,6 +116,42 @@ fn worker_main() {
         let _ = writeln!(o, "{}", out);
         let _ = o.flush();
     }
+}
+
+/// Drives the real gRPC entry point of the Flight ingestion: a `tonic::Streaming<FlightData>`
+/// decoded from a raw request body, `FlightIngestGrpcService::do_put`, then what was
+/// acknowledged and what the (fresh) ingester buffered.
+async fn grpc_do_put(chunks: Vec<Option<Vec<u8>>>) -> String {
+    use arrow_flight::flight_service_server::FlightService;
+    use futures::StreamExt;
+    use tonic::codec::Codec;
+    let ing = mk_ingester(1_000_000);
+    let svc = Arc::new(cardinalsin::api::grpc::FlightIngestGrpcService::new(ing.clone()));
+    let frames = chunks.into_iter().map(|c| match c {
+        Some(b) => Ok(http_body::Frame::data(bytes::Bytes::from(b))),
+        None => Err(tonic::Status::unavailable("connection reset by peer")),
+    });
+    let body = http_body_util::StreamBody::new(futures::stream::iter(frames));
+    let decoder = tonic::codec::ProstCodec::<arrow_flight::PutResult, arrow_flight::FlightData>::default().decoder();
+    let streaming = tonic::Streaming::new_request(decoder, body, None, None);
+    let h = tokio::spawn(async move {
+        match svc.do_put(tonic::Request::new(streaming)).await {
+            Err(st) => format!("err {:?}", st.code()),
+            Ok(resp) => {
+                let mut out = resp.into_inner();
+                match out.next().await {
+                    Some(Ok(r)) => format!("ok {}", String::from_utf8_lossy(&r.app_metadata)),
+                    Some(Err(st)) => format!("err {:?}", st.code()),
+                    None => "ok -".to_string(),
+                }
+            }
+        }
+    });
+    let r = match h.await {
+        Ok(s) => s,
+        Err(e) => return format!("PANIC {}", e.to_string().replace(['\n', '\t'], " ")),
+    };
+    format!("{} buffered={}", r, ing.buffer_stats().await.row_count)
 }
 
 fn mk_ingester(flush_rows: usize) -> Arc<cardinalsin::ingester::Ingester> {
@@ -364,6 +408,22 @@ impl HandlerEnv {
         });
         HandlerEnv { rt, query_node: qn, flushing: ing, rx, t_post: 0.0 }
     }
+    /// An OTLP export through the gRPC service entry point (`OtlpGrpcService::export`) with a
+    /// fresh ingester -> ("ok" | "err <code>" | "PANIC", rows buffered).
+    fn otlp_export(&mut self, req: opentelemetry_proto::tonic::collector::metrics::v1::ExportMetricsServiceRequest) -> (String, usize) {
+        use opentelemetry_proto::tonic::collector::metrics::v1::metrics_service_server::MetricsService;
+        let ing = mk_ingester(1_000_000);
+        let svc = cardinalsin::api::grpc::OtlpGrpcService::new(ing.clone());
+        self.rt.block_on(async move {
+            let h = tokio::spawn(async move { svc.export(tonic::Request::new(req)).await.map(|_| ()).map_err(|s| format!("{:?}", s.code())) });
+            let r = match h.await {
+                Ok(Ok(())) => "ok".to_string(),
+                Ok(Err(c)) => format!("err {}", c),
+                Err(_) => "PANIC".to_string(),
+            };
+            (r, ing.buffer_stats().await.row_count)
+        })
+    }
     /// POST body -> (status | PANIC, rows buffered by the ingester, flushed batches in canonical text).
     /// `observe_rows`: use the flushing ingester (slower) so that the stored rows can be read back;
     /// otherwise a fresh ingester whose buffer row count is reported.
@@ -396,9 +456,40 @@ struct Ctx {
     report: Report,
     t_model: f64,
     t_worker: f64,
+    out: String,
+    started: std::time::Instant,
+    budget: Duration,
+    shrinks: u32,
 }
 
+/// Work bounds under a breaking change: stop generating after this many findings,
+/// shrink only the first few, each shrink within a bounded number of runs.
+const MAX_FINDINGS: usize = 10;
+const MAX_SHRINKS: u32 = 4;
+const SHRINK_RUNS: u32 = 250;
+
 impl Ctx {
+    /// disagreements + oracle violations outside the known classes
+    fn findings(&self) -> usize {
+        self.report.disagreements.len() + self.report.oracle_violations.iter().filter(|o| o["class"].as_str().unwrap_or("").is_empty()).count()
+    }
+    /// true when the run should stop generating cases (enough findings, or out of time)
+    fn stop(&self) -> bool {
+        self.findings() >= MAX_FINDINGS || self.started.elapsed() > self.budget
+    }
+    /// the report on disk always reflects what has been found so far
+    fn flush(&self) {
+        if !self.out.is_empty() {
+            self.report.write(&self.out);
+        }
+    }
+    fn may_shrink(&mut self) -> bool {
+        if self.shrinks >= MAX_SHRINKS {
+            return false;
+        }
+        self.shrinks += 1;
+        true
+    }
     /// one remote-write byte string through implementation and model; returns
     /// (impl parse out, impl combined out, disagreement?)
     fn check_bytes(&mut self, bytes: &[u8], origin: &str) -> (String, String, bool) {
@@ -414,7 +505,7 @@ impl Ctx {
         let mr = self.model.ask(&format!("P r {}", h));
         self.t_model += t1.elapsed().as_secs_f64();
         let d3 = !self.model.is_null() && mr != mp;
-        if (d1 || d2 || d3) && self.report.disagreements.len() >= 4 {
+        if (d1 || d2 || d3) && !self.may_shrink() {
             // enough shrunk examples are on record: count the rest
             self.report.bump("disagreements.not_shrunk");
             if self.report.disagreements.len() < 20 {
@@ -426,7 +517,12 @@ impl Ctx {
                 }));
             }
         } else if d1 || d2 || d3 {
+            let mut runs = 0u32;
             let shrunk = ddmin(bytes, &mut |cand: &[u8]| {
+                runs += 1;
+                if runs > SHRINK_RUNS {
+                    return false;
+                }
                 let (p, c) = impl_prom(&mut self.worker, cand);
                 let hh = hex(cand);
                 self.model.differs(&format!("P d {}", hh), &p).0 || self.model.differs(&format!("C d {}", hh), &c).0
@@ -444,6 +540,9 @@ impl Ctx {
                 "oracle_failed": crashed,
             }));
         }
+        if d1 || d2 || d3 {
+            self.flush();
+        }
         (ip, ic, d1 || d2 || d3)
     }
 
@@ -459,16 +558,27 @@ impl Ctx {
                 None
             };
             if let Some(c) = crash {
-                if self.report.oracle_violations.len() >= 6 {
+                if !self.may_shrink() {
                     self.report.bump("crashes.not_shrunk");
                     self.report.oracle_violation("", &format!("{} {} on a request body ({} bytes)", what, c, bytes.len()), json!({"kind": "prom", "hex": hex(bytes), "origin": origin}));
+                    self.flush();
                     return;
                 }
+                let mut runs = 0u32;
                 let shrunk = ddmin(bytes, &mut |cand: &[u8]| {
+                    runs += 1;
+                    if runs > SHRINK_RUNS {
+                        return false;
+                    }
+                    // a hang costs a watchdog period per run: do not shrink those
+                    if c.contains("hang") {
+                        return false;
+                    }
                     let (p, cc) = impl_prom(&mut self.worker, cand);
                     [p.as_str(), cc.as_str()].iter().any(|o| o.starts_with("PANIC") || *o == "HANG" || *o == "ABORT")
                 });
                 self.report.oracle_violation("", &format!("{} {} on a request body ({} bytes after shrinking)", what, c, shrunk.len()), json!({"kind": "prom", "hex": hex(&shrunk), "original": hex(bytes), "origin": origin}));
+                self.flush();
                 return;
             }
         }
@@ -528,6 +638,14 @@ fn replay(args: &Args, path: &str) -> ! {
             println!("flight frames -> {}", s);
             failed = s.starts_with("PANIC") || s == "HANG" || s == "ABORT";
         }
+        "flight_grpc" => {
+            let r = worker.ask(&format!("G {}", case["chunks"].as_str().unwrap_or("")), WATCHDOG);
+            let s = match r { Answer::Line(l) => l, Answer::Hang => "HANG".into(), Answer::Died => "ABORT".into() };
+            let g = Grpc { chunks: vec![], class: "replay", broken: case["broken"].as_bool().unwrap_or(false), rows: case["rows"].as_u64().unwrap_or(0) as usize, complete_batches: 0 };
+            let bad = grpc_oracle(&g, &s);
+            println!("flight gRPC body -> {}\noracle: {:?}", s, bad);
+            failed = bad.is_some();
+        }
         _ => println!("unknown replay kind {}", kind),
     }
     std::process::exit(if failed { 1 } else { 0 });
@@ -570,8 +688,10 @@ fn main() {
     let (n_structured, n_malformed) = if only.is_empty() || only == "prom" { (n_structured, n_malformed) } else { (0, 0) };
     let (n_otlp, n_otlp_bytes) = if only.is_empty() || only == "otlp" { (n_otlp, n_otlp_bytes) } else { (0, 0) };
     let n_flight = if only.is_empty() || only == "flight" { n_flight } else { 0 };
+    let n_grpc = if !(only.is_empty() || only == "flight" || only == "grpc") { 0 } else if thorough { 4_000 } else { 500 };
+    let n_flight = if only == "grpc" { 0 } else { n_flight };
 
-    let mut cx = Ctx { model: Model::spawn(&args.model), worker: Worker::spawn(), report: Report::new("C17"), t_model: 0.0, t_worker: 0.0 };
+    let mut cx = Ctx { model: Model::spawn(&args.model), worker: Worker::spawn(), report: Report::new("C17"), t_model: 0.0, t_worker: 0.0, out: args.out.clone(), started: std::time::Instant::now(), budget: Duration::from_secs(if thorough { 2400 } else { 420 }), shrinks: 0 };
     let mut rng = Rng::new(args.seed);
     let mut henv = HandlerEnv::new();
     let t_start = std::time::Instant::now();
@@ -608,6 +728,9 @@ fn main() {
     // ------------------------------------------------ 1. structured remote-write
     let handler_every = (n_structured / n_handler.max(1)).max(1);
     for k in 0..n_structured {
+        if cx.stop() {
+            break;
+        }
         let mut r = rng.fork();
         let mut bumps: Vec<String> = Vec::new();
         let opts = wire::GenOpts { invalid_utf8: false, reserved_names: r.chance(1, 6) };
@@ -626,7 +749,7 @@ fn main() {
             cx.report.bump(b);
         }
         let (ip, ic, differs) = cx.check_bytes(&enc.buf, "structured");
-        if k < 3 {
+        if k < 2 {
             cx.report.sample(json!({"request": text, "bytes": hex(&enc.buf), "impl_parse": ip, "impl_convert": ic}));
         }
         // the canonical encoder of the harness is the model's encoder
@@ -690,7 +813,11 @@ fn main() {
 
     lap!("structured");
     // ------------------------------------------------ 2. malformed remote-write
+    cx.flush();
     for _ in 0..n_malformed {
+        if cx.stop() {
+            break;
+        }
         let mut r = rng.fork();
         let (bytes, class) = if r.chance(1, 5) {
             wire::random_bytes(&mut r)
@@ -744,8 +871,12 @@ fn main() {
     lap!("malformed");
     // ------------------------------------------------ 3. OTLP
     let mut known_reported: std::collections::BTreeMap<&'static str, u32> = std::collections::BTreeMap::new();
+    cx.flush();
     for k in 0..n_otlp {
         use prost::Message;
+        if cx.stop() {
+            break;
+        }
         let mut r = rng.fork();
         let modelled = !r.chance(1, 6);
         let mut bumps: Vec<String> = Vec::new();
@@ -777,6 +908,17 @@ fn main() {
         } else {
             cx.report.bump("otlp.unmodelled_attribute_values");
         }
+        // the same request through the gRPC service entry point
+        if k % 4 == 0 {
+            let (ans, buffered) = henv.otlp_export(req.clone());
+            cx.report.impl_runs += 1;
+            cx.report.bump("stream.otlp_grpc_export");
+            let want = if npoints == 0 { "err InvalidArgument".to_string() } else { "ok".to_string() };
+            if ans != want || buffered != npoints {
+                cx.report.oracle_violation("", &format!("OtlpGrpcService::export of {} data points answered '{}' with {} rows buffered (expected '{}', {} rows)", npoints, ans, buffered, want, npoints), json!({"kind": "otlp", "hex": enc}));
+                cx.flush();
+            }
+        }
         for (kind, what) in otlp::oracle(&req, &out) {
             // known-finding classes come from the model's executable classifier
             let class = match kind {
@@ -797,8 +939,12 @@ fn main() {
         }
     }
     lap!("otlp");
+    cx.flush();
     for _ in 0..n_otlp_bytes {
         use prost::Message;
+        if cx.stop() {
+            break;
+        }
         let mut r = rng.fork();
         let bytes: Vec<u8> = if r.chance(1, 3) {
             wire::random_bytes(&mut r).0
@@ -823,7 +969,11 @@ fn main() {
 
     lap!("otlp_bytes");
     // ------------------------------------------------ 4. Arrow Flight DoPut
+    cx.flush();
     for _ in 0..n_flight {
+        if cx.stop() {
+            break;
+        }
         let mut r = rng.fork();
         let (frames, class, nrows) = gen_flight(&mut r);
         cx.report.case(None);
@@ -842,7 +992,13 @@ fn main() {
         }
         if s.starts_with("PANIC") || s == "HANG" || s == "ABORT" {
             // shrink over frames
+            let mut runs = 0u32;
+            let can = cx.may_shrink() && s.starts_with("PANIC");
             let shrunk = ddmin(&frames, &mut |cand: &[(Vec<u8>, Vec<u8>)]| {
+                runs += 1;
+                if !can || runs > SHRINK_RUNS {
+                    return false;
+                }
                 let l = cand.iter().map(|(h, b)| format!("{}:{}", hex(h), hex(b))).collect::<Vec<_>>().join(",");
                 match cx.worker.ask(&format!("F {}", l), WATCHDOG) {
                     Answer::Line(x) => x.starts_with("PANIC"),
@@ -851,11 +1007,44 @@ fn main() {
             });
             let l = shrunk.iter().map(|(h, b)| format!("{}:{}", hex(h), hex(b))).collect::<Vec<_>>().join(",");
             cx.report.oracle_violation("", &format!("Flight DoPut frames ({}): {}", class, &s[..s.len().min(200)]), json!({"kind": "flight", "frames": l}));
+            cx.flush();
         }
     }
 
     lap!("flight");
+    // ------------------------------------------------ 5. Flight DoPut through the gRPC service
+    cx.flush();
+    for k in 0..n_grpc {
+        if cx.stop() {
+            break;
+        }
+        let mut r = rng.fork();
+        let g = gen_grpc(&mut r);
+        cx.report.case(None);
+        cx.report.bump("stream.flight_grpc");
+        cx.report.bump(g.class);
+        let line = g.chunks.iter().map(|c| match c { Some(b) => hex(b), None => "ERR".to_string() }).collect::<Vec<_>>().join(",");
+        let s = match cx.worker.ask(&format!("G {}", line), WATCHDOG) {
+            Answer::Line(l) => l,
+            Answer::Hang => "HANG".into(),
+            Answer::Died => "ABORT".into(),
+        };
+        cx.report.impl_runs += 1;
+        cx.report.bump(&format!("flight_grpc.{}", s.split(' ').next().unwrap_or("")));
+        if k < 1 {
+            cx.report.sample(json!({"flight_grpc": g.class, "complete_batch_frames_before_break": g.complete_batches, "answer": s}));
+        }
+        if let Some(what) = grpc_oracle(&g, &s) {
+            cx.report.oracle_violation("", &what, json!({"kind": "flight_grpc", "chunks": line, "class": g.class, "broken": g.broken, "rows": g.rows}));
+            cx.flush();
+        }
+    }
+
+    lap!("flight_grpc");
     let _ = lap;
+    if cx.stop() {
+        cx.report.notes.push(format!("stopped early: {} findings (limit {}), {:.0}s elapsed (budget {}s)", cx.findings(), MAX_FINDINGS, cx.started.elapsed().as_secs_f64(), cx.budget.as_secs()));
+    }
     cx.report.notes.push(format!("stream times: {}; in check_bytes: model {:.1}s, worker {:.1}s; handler posts {:.1}s", laps.join(", "), cx.t_model, cx.t_worker, henv.t_post));
     cx.report.notes.push(format!("model calls: {}; worker restarts: {}", cx.model.calls, cx.worker.restarts));
     cx.report.write(&args.out);
@@ -936,4 +1125,186 @@ fn gen_flight(rng: &mut Rng) -> (Vec<(Vec<u8>, Vec<u8>)>, &'static str, usize) {
             (frames, "flight.body_replaced", n)
         }
     }
+}
+
+// ------------------------------------------------ Flight DoPut through the gRPC service
+/// A raw gRPC request body for DoPut (chunks as they arrive from the transport; `None` =
+/// the transport fails there), whether the stream is broken, and the rows of a complete one.
+struct Grpc {
+    chunks: Vec<Option<Vec<u8>>>,
+    class: &'static str,
+    broken: bool,
+    rows: usize,
+    complete_batches: usize,
+}
+
+/// The rule established on the unchanged code: `do_put` collects the whole stream first,
+/// so a stream that ends in an error (message cut short, declared length past the body,
+/// invalid compression flag, undecodable message, transport error) is answered with an
+/// error status and nothing of it reaches the ingester; a complete stream is acknowledged
+/// with exactly its row count, all of which is buffered.
+fn grpc_oracle(g: &Grpc, answer: &str) -> Option<String> {
+    if answer.starts_with("PANIC") || answer == "HANG" || answer == "ABORT" {
+        return Some(format!("FlightIngestGrpcService::do_put crashed on a {} stream: {}", g.class, &answer[..answer.len().min(160)]));
+    }
+    let (verdict, buffered) = answer.split_once(" buffered=").unwrap_or((answer, "?"));
+    if g.broken {
+        if verdict.starts_with("ok") {
+            return Some(format!("a DoPut stream that ends in an error ({}) was acknowledged with '{}' ({} rows buffered)", g.class, verdict, buffered));
+        }
+        if buffered != "0" {
+            return Some(format!("a DoPut stream that ends in an error ({}) was rejected but {} of its rows were buffered", g.class, buffered));
+        }
+        None
+    } else if verdict != format!("ok {}", g.rows) || buffered != g.rows.to_string() {
+        Some(format!("a complete DoPut stream of {} rows ({}) was answered with '{}', {} rows buffered", g.rows, g.class, verdict, buffered))
+    } else {
+        None
+    }
+}
+
+fn gen_grpc(rng: &mut Rng) -> Grpc {
+    use arrow_array::{Float64Array, RecordBatch, StringArray, TimestampNanosecondArray};
+    use arrow_schema::{DataType, Field, Schema, TimeUnit};
+    use prost::Message;
+    let schema = Arc::new(Schema::new(vec![
+        Field::new("timestamp", DataType::Timestamp(TimeUnit::Nanosecond, Some("UTC".into())), false),
+        Field::new("metric_name", DataType::Utf8, false),
+        Field::new("value_f64", DataType::Float64, true),
+        Field::new("host", DataType::Utf8, true),
+    ]));
+    let nb = rng.range_usize(1, 4);
+    let mut sizes = Vec::new();
+    let mut batches = Vec::new();
+    for b in 0..nb {
+        let n = if rng.chance(1, 10) { 0 } else { rng.range_usize(1, 5) };
+        sizes.push(n);
+        batches.push(
+            RecordBatch::try_new(
+                schema.clone(),
+                vec![
+                    Arc::new(TimestampNanosecondArray::from((0..n).map(|i| 1_700_000_000_000_000_000 + (b * 10 + i) as i64).collect::<Vec<_>>()).with_timezone("UTC")),
+                    Arc::new(StringArray::from((0..n).map(|_| "cpu").collect::<Vec<_>>())),
+                    Arc::new(Float64Array::from((0..n).map(|i| i as f64 * 0.25).collect::<Vec<_>>())),
+                    Arc::new(StringArray::from((0..n).map(|i| if i % 2 == 0 { Some("a") } else { None }).collect::<Vec<Option<&str>>>())),
+                ],
+            )
+            .unwrap(),
+        );
+    }
+    let fd = arrow_flight::utils::batches_to_flight_data(schema.as_ref(), batches).unwrap();
+    // gRPC length-prefixed messages: frame 0 is the schema, frame i >= 1 carries batch i - 1
+    let mut msgs: Vec<Vec<u8>> = fd
+        .iter()
+        .map(|f| {
+            let p = f.encode_to_vec();
+            let mut m = vec![0u8];
+            m.extend((p.len() as u32).to_be_bytes());
+            m.extend(p);
+            m
+        })
+        .collect();
+    let nmsg = msgs.len();
+    // where the stream breaks: biased to "after the schema frame and at least one complete batch frame"
+    let j = if nmsg > 2 && rng.chance(3, 4) { rng.range_usize(2, nmsg - 1) } else { rng.range_usize(0, nmsg - 1) };
+    let rows_before = |j: usize| sizes.iter().take(j.saturating_sub(1)).sum::<usize>();
+    let total: usize = sizes.iter().sum();
+    let mut transport_error_at: Option<usize> = None; // byte offset in the body
+    let (class, broken, rows): (&'static str, bool, usize) = match rng.below(10) {
+        0 | 1 => ("grpc.complete", false, total),
+        2 => {
+            // ends cleanly after j frames: a shorter, complete stream
+            msgs.truncate(j);
+            ("grpc.ends_at_message_boundary", false, rows_before(j))
+        }
+        3 | 4 => {
+            // cut inside message j (header or payload)
+            msgs.truncate(j + 1);
+            let l = msgs[j].len();
+            // (a body that ends exactly after the 5-byte length prefix is reported by tonic 0.12's
+            // frame decoder as a clean end of stream — nothing is left in its buffer — so the
+            // service cannot see that break; it is generated as its own class below)
+            match rng.below(9) {
+                0 | 1 => {
+                    msgs[j].truncate(rng.range_usize(1, 4));
+                    ("grpc.cut_inside_message", true, 0)
+                }
+                2 => {
+                    msgs[j].truncate(5);
+                    ("grpc.ends_after_length_prefix_seen_as_eof_by_tonic", false, rows_before(j))
+                }
+                _ => {
+                    msgs[j].truncate(rng.range_usize(6, l - 1));
+                    ("grpc.cut_inside_message", true, 0)
+                }
+            }
+        }
+        5 => {
+            // declared length runs past the end of the body (or past the 4 MiB decode limit)
+            msgs.truncate(j + 1);
+            let real = msgs[j].len() - 5;
+            let declared: u32 = match rng.below(4) {
+                0 => real as u32 + 1,
+                1 => real as u32 + rng.range_usize(2, 4000) as u32,
+                2 => 0x7FFF_FFFF,
+                _ => u32::MAX,
+            };
+            msgs[j][1..5].copy_from_slice(&declared.to_be_bytes());
+            ("grpc.declared_length_past_body", true, 0)
+        }
+        6 => {
+            // compression flag without a negotiated encoding, or an invalid flag
+            msgs[j][0] = *rng.pick(&[1u8, 2, 3, 0x80, 0xFF]);
+            ("grpc.bad_compression_flag", true, 0)
+        }
+        7 => {
+            // the transport fails: at a message boundary or inside message j
+            let start: usize = msgs.iter().take(j).map(|m| m.len()).sum();
+            let at = if rng.chance(1, 2) { start } else { start + rng.range_usize(1, msgs[j].len() - 1) };
+            transport_error_at = Some(at);
+            ("grpc.transport_error", true, 0)
+        }
+        8 => {
+            // message j is not a FlightData message: a length-delimited field that overruns the message
+            let junk = vec![0x0A, 0x7F, 0x01, 0x02, 0x03];
+            let mut m = vec![0u8];
+            m.extend((junk.len() as u32).to_be_bytes());
+            m.extend(junk);
+            msgs[j] = m;
+            ("grpc.undecodable_message", true, 0)
+        }
+        _ => {
+            // a few stray bytes after the last complete message
+            let extra: Vec<u8> = (0..rng.range_usize(1, 4)).map(|_| rng.below(256) as u8).collect();
+            msgs.push(extra);
+            ("grpc.trailing_partial_header", true, 0)
+        }
+    };
+    let body: Vec<u8> = msgs.concat();
+    // how the transport delivers the body: 1-4 chunks at arbitrary offsets
+    let mut cuts: Vec<usize> = (0..rng.range_usize(0, 3)).map(|_| if body.is_empty() { 0 } else { rng.below(body.len() as u64 + 1) as usize }).collect();
+    if let Some(at) = transport_error_at {
+        cuts.push(at.min(body.len()));
+    }
+    cuts.push(0);
+    cuts.push(body.len());
+    cuts.sort();
+    cuts.dedup();
+    let mut chunks: Vec<Option<Vec<u8>>> = Vec::new();
+    for w in cuts.windows(2) {
+        if Some(w[0]) == transport_error_at {
+            break;
+        }
+        chunks.push(Some(body[w[0]..w[1]].to_vec()));
+    }
+    if let Some(at) = transport_error_at {
+        // everything before the failure point was delivered
+        let delivered: usize = chunks.iter().map(|c| c.as_ref().map(|b| b.len()).unwrap_or(0)).sum();
+        if delivered < at.min(body.len()) {
+            chunks.push(Some(body[delivered..at.min(body.len())].to_vec()));
+        }
+        chunks.push(None);
+    }
+    let complete_batches = if broken { j.saturating_sub(1) } else { nb };
+    Grpc { chunks, class, broken, rows, complete_batches }
 }
